@@ -661,6 +661,10 @@ class CallMixin(object):
         if o.ty is EMPTY_LIST:
             return [(st, NONEV, recv)]
         o = self.adapt(o, recv.ty) if o.ty is STATIC or isinstance(o.ty, Tup) else o
+        if isinstance(o.ty, U):
+            view = getattr(self.reg, "iter_views", {}).get(o.ty.name)
+            if view is not None:
+                o = core.ufun("sf_" + view[0], [o], view[1])      # an opaque iterable: the list it is declared to iterate as
         if o.ty != recv.ty and isinstance(o.ty, List):
             # element-wise conversion (e.g. Optional[X] elements known present -> X)
             conv = fresh(recv.ty, "conv")
